@@ -25,7 +25,7 @@ def performs (handler failAt : String) : Option Bool :=
   let reads : List String := match handler with
     | "evmdeposit" => ["events", "lookup"]
     | "evmretry1" => ["events", "retrydeposits", "lookup", "propstatus"]
-    | "evmretry2" => ["events"]
+    | "evmretry2" | "evmkeygen" | "evmfrostkeygen" | "evmrefresh" => ["events"]
     | "subdeposit" => ["events"]
     | "subsys" => ["events", "metadata"]
     | "subretry" => ["events", "head", "block", "blockhash", "blockevents"]
